@@ -7,19 +7,19 @@ from .tables import is_true, is_false
 from . import c07, c08
 
 EXPLANATION = (
-    'Static clauses: (R1) inventory of state shared between the parallel root tasks: the closures capture only '
-    "shared references to the caller's board / context / flags, every task owns its board clone and move generator,"
-    ' the only interior-mutable state reachable is the four Arc<RwLock<_>> of SearchContext, and the crate has no '
-    'static mutable/interior-mutable items; (R2) the three statistic counters never flow into a branch, argument or'
-    ' result of the search (they are only incremented, reset or returned by getters); (R3) the shared result cache '
-    'is functional - its key determines its value (imports C08.R1 incl. the injective-packing clause and C08.R5), '
-    'and inside the search call graph the board is changed only through apply/undo/toggle_turn (imports the C04.R4 '
-    'rows of those functions: a search that registers positions or touches clocks makes leaf values path dependent '
-    'while the key stays the same); (R4) the lock-order graph over all acquisition sites is acyclic, no lock is re-'
-    'acquired while held and no crate function that acquires locks is called under a guard; (R5) the result is a '
-    'deterministic function of the candidate list in candidate order: indexed parallel map collected into a Vec, '
-    "sequential sort, comparator on scores only. rayon's and std's own correctness and panics in workers are NOT "
-    'decided.'
+    'Static clauses: (R1) inventory of state shared between the parallel root tasks: the closures capture only shared references to the'
+    " caller's board / context / flags, every task owns its board clone and move generator, the only interior-mutable state reachable "
+    'is the four Arc<RwLock<_>> of SearchContext, and the crate has no static mutable/interior-mutable items; (R2) the three statistic '
+    'counters never flow into a branch, argument or result of the search (they are only incremented, reset or returned by getters); '
+    '(R3) the shared result cache is functional - its key determines its value (imports C08.R1 incl. the injective-packing clause and '
+    'C08.R5), and inside the search call graph the board is changed only through apply/undo/toggle_turn (imports the C04.R4 rows of '
+    'those functions: a search that registers positions or touches clocks makes leaf values path dependent while the key stays the '
+    'same); (R4) the lock-order graph over all acquisition sites is acyclic, no lock is re-acquired while held and no crate function '
+    'that acquires locks is called under a guard; (R5) the result is a deterministic function of the candidate list in candidate order:'
+    " indexed parallel map collected into a Vec, sequential sort, comparator on scores only. rayon's and std's own correctness and "
+    'panics in workers are NOT decided. R1 accepts any number of integer counters, each behind its own lock (found by type), next to '
+    "the result cache; R2 applies to all of them and tolerates a branch on a counter's value only when it decides nothing but what is "
+    'written back to that same counter (a running maximum); any other kind of shared mutable field is a violation.'
 )
 ASSUMPTIONS = [
     "rayon: collect() of an indexed parallel iterator preserves the order of the underlying slice",
